@@ -243,6 +243,8 @@ def run_case(ctx, i, rng):
         f = os.path.join(d, "x.v")
         with open(f, "w") as fh:
             fh.write(text)
+        f = common.input_variant(f, rng)       # (.v / .vh / .vm, any letter case, or a single-file zip archive)
+        ctx.count("input_name:" + os.path.splitext(f)[1].lower())
         try:
             n = sdn.parse(f)
         except Exception as ex:  # noqa: BLE001
